@@ -61,7 +61,25 @@ def known_table():
         out.append(f"| {f['property']} | `{f['key']}` | {f.get('what','').replace('|','/')} |")
     return "\n".join(out)
 
-gen = {'RULES': rules_table, 'SEEDS': seeds_table, 'FIXES': fixes_table, 'KNOWN': known_table}
+def neutral_table():
+    out = ["| variant | from | checks that must stay silent | what was changed | verdict |", "|---|---|---|---|---|"]
+    for d in sorted(glob.glob('neutral/*')):
+        if not os.path.exists(d + '/meta.json'):
+            continue
+        m = json.load(open(d + '/meta.json'))
+        notes = m.get('notes') or []
+        what = " ".join(notes) if notes else m.get('origin', '')
+        what = re.sub(r'\s+', ' ', what).replace('|', '/').strip()
+        if len(what) > 240:
+            what = what[:237] + '...'
+        k = m.get('known_false_alarm')
+        verdict = 'silent'
+        if k:
+            verdict = 'KNOWN LIMITATION (' + ",".join(k['props']) + ' alarm): ' + k['why'].replace('|', '/')
+        out.append(f"| {os.path.basename(d)} | {m.get('origin','')} | {','.join(m.get('props', []))} | {what} | {verdict} |")
+    return "\n".join(out)
+
+gen = {'NEUTRAL': neutral_table, 'RULES': rules_table, 'SEEDS': seeds_table, 'FIXES': fixes_table, 'KNOWN': known_table}
 s = open('DESIGN.md').read()
 for name, fn in gen.items():
     pat = re.compile(r'(<!-- BEGIN GENERATED:%s -->\n).*?(<!-- END GENERATED:%s -->)' % (name, name), re.S)
